@@ -26,6 +26,7 @@ from typing import Any
 
 from happysimulator.core.entity import Entity
 from happysimulator.core.event import Event
+from happysimulator.core.sim_future import SimFuture
 
 logger = logging.getLogger(__name__)
 
@@ -149,7 +150,6 @@ class Barrier(Entity):
 
         self._wait_calls += 1
         enqueue_time = self._clock.now.nanoseconds if self._clock else 0
-        my_generation = self._generation
 
         # Check if we're the last party (breaks the barrier)
         if len(self._waiters) + 1 >= self._parties:
@@ -160,24 +160,22 @@ class Barrier(Entity):
 
         # Not the last - must wait
         released = [False]
+        wake = SimFuture()
 
         def on_release():
             released[0] = True
+            wake.resolve()
 
         waiter = _BarrierWaiter(callback=on_release, enqueue_time_ns=enqueue_time)
         self._waiters.append(waiter)
         arrival_index = self._parties - len(self._waiters)
 
-        # Yield control until released
-        while not released[0]:
-            # Check for broken barrier
-            if self._broken:
-                raise RuntimeError(f"Barrier {self.name} is broken")
-            # Check for generation change (we were released)
-            if self._generation != my_generation:
-                released[0] = True
-                break
-            yield 0.0
+        # Park until the barrier breaks, is reset or aborted (every one of
+        # those paths pops this waiter and calls its callback).  Parking on a
+        # future instead of re-yielding a zero delay lets simulated time pass
+        # while parties are still missing.
+        if not released[0]:
+            yield wake
 
         # Record wait time
         if self._clock:
